@@ -807,3 +807,5 @@ def plan(tier):
         "shrink": "hypothesis",
         "budget_s": 150 if quick else 1500,
     }
+
+RULE += (" Also: a send that one layer refuses (raises), after which no layer's send lock may still be held; an earlier stack assembled from the same layer classes.")
